@@ -417,6 +417,7 @@ class _Z3Ints:
     def __init__(self):
         self.atom_vars = {}
         self.mono_vars = {}
+        self.cond_cache = {}
 
     def atom(self, a):
         v = self.atom_vars.get(a)
@@ -441,6 +442,14 @@ class _Z3Ints:
         return s
 
     def cond(self, c):
+        k = c.key()
+        r = self.cond_cache.get(k)
+        if r is None:
+            r = self._cond(c)
+            self.cond_cache[k] = r
+        return r
+
+    def _cond(self, c):
         if c.op == 'true':
             return z3.BoolVal(True)
         if c.op == 'false':
@@ -512,7 +521,6 @@ class Context:
         self.memo = LevelCache()
         self.stats = {'lia_queries': 0, 'splits': 0}
         self.level = 0
-        self.mono_axioms_done = set()
         self.writes = []             # heap write log (buffer ids), filled by arrays.Buffer
         self.events = []
         self.trace_fork = None       # TraceFork while a function is being traced
@@ -550,18 +558,41 @@ class Context:
         self.memo.clear()
 
     def _add(self, c):
-        self._mono_axioms(c)
+        for ax in self._mono_axioms(c):
+            self.solver.add(ax)
         self.solver.add(self.z.cond(c))
 
     def _mono_axioms(self, c):
-        # products of symbols that are known >= 1 are themselves >= 1 (sizes); enough for the shapes that occur
+        """nonlinear monomials are opaque Int constants; sound facts about products of factors that are >= 1 (sizes)
+        are returned as z3 constraints (added by the caller at the level where they are needed):
+        p = a*b  =>  p >= a, p >= b, (a == 1 -> p == b), (b == 1 -> p == a)   -- via a chain of binary products"""
+        out = []
         for p in self._polys(c):
             for m in p.terms:
                 if len(m) > 1 or (len(m) == 1 and m[0][1] > 1):
-                    if m not in self.mono_axioms_done:
-                        self.mono_axioms_done.add(m)
-                        self.z.poly(IExpr({m: 1}))
-                        self.solver.add(self.z.mono_vars[m] >= 1)
+                    out += self._product_axioms(m)
+        return out
+
+    def _product_axioms(self, m):
+        factors = []
+        for a, k in m:
+            factors += [a] * k
+        out = []
+        acc_key = ((factors[0], 1),)
+        acc_var = self.z.atom(factors[0])
+        out.append(acc_var >= 1) if isinstance(factors[0], str) and factors[0] in ('Nx', 'Ny', 'Nz') else None
+        for f in factors[1:]:
+            d = dict(acc_key)
+            d[f] = d.get(f, 0) + 1
+            new_key = tuple(sorted(d.items(), key=lambda ap: _atom_key(ap[0])))
+            self.z.poly(IExpr({new_key: 1}))
+            pv = self.z.mono_vars[new_key]
+            fv = self.z.atom(f)
+            if all(isinstance(x, str) and x in ('Nx', 'Ny', 'Nz') for x in factors):
+                out += [pv >= acc_var, pv >= fv, z3.Implies(acc_var == 1, pv == fv), z3.Implies(fv == 1, pv == acc_var),
+                        pv >= 1]
+            acc_key, acc_var = new_key, pv
+        return out
 
     def _polys(self, c):
         if c.op in ('and', 'or'):
@@ -583,9 +614,10 @@ class Context:
             return True
         if self.neg.top_get(k) is False:
             return False
-        self._mono_axioms(c)
         self.stats['lia_queries'] += 1
         self.solver.push()
+        for ax in self._mono_axioms(c):
+            self.solver.add(ax)
         self.solver.add(z3.Not(self.z.cond(c)))
         res = self.solver.check()
         self.solver.pop()
